@@ -13,13 +13,24 @@ func OfMany(subs [][]int32, sizes []int32) []uint64 {
 
 	r := make([]int32, totalBits)
 	base := int32(0)
+	// A position may be >= the size of its own sub-bitmap (Builder.Extend
+	// accepts that too), so the rebased positions are not necessarily
+	// ascending: track the end of the bitmap instead of relying on the last one.
+	end := int32(0)
 	ith := 0
 	for i, e := range subs {
 		for _, idx := range e {
-			r[ith] = base + idx
+			p := base + idx
+			r[ith] = p
+			if p >= end {
+				end = p + 1
+			}
 			ith++
 		}
 		base += sizes[i]
 	}
-	return Of(r, base)
+	if end < base {
+		end = base
+	}
+	return Of(r, end)
 }
